@@ -37,7 +37,7 @@ def polySums (cs : List Rat) (x : Rat) (barePowers : Bool := true) : Rat × Rat 
       let t := c * xp
       let ta := ratAbs t
       let okT := (ta == 0 || (lo ≤ ta && ta ≤ hi)) && (barePowers == false || ratAbs xp == 0 || (lo ≤ ratAbs xp && ratAbs xp ≤ hi))
-        && (ratAbs c == 0 || (lo ≤ ratAbs c && ratAbs c ≤ hi))
+        && (ratAbs c == 0 || (pow2 (-1020) ≤ ratAbs c && ratAbs c ≤ pow2 1020))
       go rest (xp * x) (s + t) (sa + ta) (ok && okT)
   go cs 1 0 0 true
 
@@ -385,6 +385,9 @@ def splineWindow (kr : List (Rat × Rat)) : Bool :=
       let X := rmax (ratAbs k0.1) (ratAbs k1.1)
       let M := ratAbs s + ratAbs e0 + ratAbs e1
       lo ≤ dx * dx * dx && X * X ≤ hi && M / (dx * dx) * (1 + X + X * X + X * X * X) ≤ hi
+      -- ... and the scale of the second derivatives M/dx and of the cubic coefficient M/dx² is not in underflow territory
+      -- (d·x0³ can be of the size of the ordinates although d itself is below 2^-1022)
+      && (M == 0 || (lo ≤ M / (dx * dx) && lo ≤ M / dx))
       && (let t := ratAbs k0.2 + ratAbs k1.2 + M * (dx + X); t == 0 || pow2 (-900) ≤ t)
 
 /-- C04 + C05.  `win`: judge only data inside `splineWindow`; outside it the implementation is known not to satisfy the
